@@ -7,7 +7,9 @@
 (T) after each mutator the origin is probed and the payload drained from the broadcast queue
     is decoded: CrdtTrace requires the message to carry exactly the entries touched and the
     origin to list exactly what those entries imply; at the end a fresh receiver that merges
-    all broadcasts must list the same.
+    all broadcasts must list the same.  A share of the histories is run a second time with the
+    nodes' audit sink unreachable (the real gRPC recorder on a dead connection): auditing is a side
+    channel and must not decide whether a change is stored or broadcast.
 """
 import vlib
 from checks import crdtlib
@@ -30,7 +32,10 @@ def check(run):
         for s in a + b:
             n = nlocal(s)
             s["ops"] = s["ops"] + [{"op": "deliver", "to": 9, "ms": list(range(1, n + 1)), "batch": False}]
-        scns += a + b
+        # the audit sink is a side channel: the same histories with the sink unreachable (every RecordEvent fails)
+        # must store and broadcast exactly the same
+        down = [dict(x, auditdown=True) for x in (a[:: 1 if thorough else 3] + b[::4])]
+        scns += a + b + down
         run.log("%s: %d exhaustive single-origin histories, %d simulated two-origin histories" % (mp, len(a), len(b)))
     tpath = crdtlib.execute(run, scns, "c09")
     v = vlib.Verdict(run)
@@ -43,7 +48,7 @@ def check(run):
         "distinct_nontrivial": bulk,
         "rule": "scenario = TLC-generated mutator sequence (exhaustive depth %d on one origin over 3 keys incl. bulk deletes touching 0, 1, >=2 "
                 "entries; simulated depth 7 with a second origin and up to 2 deliveries), probed after each step, closed by a fresh "
-                "receiver merging every broadcast; non-trivial = contains a bulk delete; evaluations = recorded events" % d,
+                "receiver merging every broadcast; a share of them repeated with the audit sink unreachable; non-trivial = contains a bulk delete; evaluations = recorded events" % d,
         "scenarios": len(scns), "trace_spec_states": tstates, "rejections": len(rejected), "exhaustive": True,
         "samples": [scns[0]["ops"], scns[len(scns) // 2]["ops"], {"trace_excerpt": vlib.head_events(tpath, 5)}],
     }, ["broadcast payloads are drained from memberlist.TransmitLimitedQueue.GetBroadcasts right after each mutator",
